@@ -27,6 +27,10 @@ func main() {
 	repo := flag.String("repo", "/repo", "nfpm tree")
 	replay := flag.String("replay", "", "replay file to re-run")
 	flag.Parse()
+	// what nfpm reads from the process environment is scenario input, set by the families that need it (see bin/check)
+	for _, k := range []string{"SOURCE_DATE_EPOCH", "NFPM_PASSPHRASE", "NFPM_DEB_PASSPHRASE", "NFPM_RPM_PASSPHRASE", "NFPM_APK_PASSPHRASE"} {
+		os.Unsetenv(k)
+	}
 	// the notices nfpm prints about deprecated settings would drown the run; the race-detector workload keeps nfpm's own
 	// notice writer (it is process-wide state every deb and ipk packaging may write through)
 	props.DefaultNoticer = deprecation.Noticer
